@@ -33,6 +33,9 @@ func (SMEnabled) Name() string {
 type UnAckQueue struct {
 	Uslice []*UnAckedStz
 	sync.RWMutex
+	// lastId is the sequence number given to the last pushed element. It survives the queue
+	// becoming empty, so that ids keep counting the stanzas sent on the session.
+	lastId int
 }
 type UnAckedStz struct {
 	Id  int
@@ -108,8 +111,8 @@ func (uaq *UnAckQueue) Push(s Queueable) error {
 	if uaq == nil {
 		return nil
 	}
-	pushIdx := 1
-	if len(uaq.Uslice) != 0 {
+	pushIdx := uaq.lastId + 1
+	if len(uaq.Uslice) != 0 && uaq.Uslice[len(uaq.Uslice)-1].Id >= pushIdx {
 		pushIdx = uaq.Uslice[len(uaq.Uslice)-1].Id + 1
 	}
 	if verifEnabled {
@@ -127,6 +130,7 @@ func (uaq *UnAckQueue) Push(s Queueable) error {
 	}
 
 	uaq.Uslice = append(uaq.Uslice, &e)
+	uaq.lastId = pushIdx
 
 	return nil
 }
